@@ -13,10 +13,12 @@ R8 the reported reason names a cause in progress.
 """
 import ast
 
+from ..known_names import KNOWN_NAMES
+
 from ..model import AnalysisError
 from ..sym import U, is_const, Run, run_function
 from ..util import (bind_call, strip_await, where, same, SA, SERVER, MANAGER,
-                    PUBSUB, ns_or_default, eval_cmp, num_val)
+                    PUBSUB, ns_or_default, eval_cmp, num_val, walk_own)
 from .common import (effects, sends, packet_ctor, trigger_calls,
                      caught_origin, txt)
 
@@ -692,6 +694,56 @@ def r10_can_disconnect(ctx):
                             % n)
 
 
+def r11_environ_lifetime(ctx, fam):
+    """the request environment of a transport is needed by every later
+    CONNECT on it (the connect handler receives it): it is removed only
+    where the transport ends.  Removal sites of self.environ[...] outside
+    _handle_eio_disconnect (and helpers only it calls) are reported."""
+    m = ctx.model
+    S = SERVER[fam]
+    n = 0
+    callers = {}
+    for cn in (S, 'BaseServer'):
+        for g in m.cls(cn).methods.values():
+            for y in walk_own(g.node):
+                if isinstance(y, ast.Call) and \
+                        isinstance(y.func, ast.Attribute) and \
+                        U(y.func.value) == 'self':
+                    callers.setdefault(y.func.attr, set()).add(g.name)
+    for cn in (S, 'BaseServer'):
+        for g in m.cls(cn).methods.values():
+            for y in walk_own(g.node):
+                site = None
+                if isinstance(y, ast.Delete):
+                    for t in y.targets:
+                        if isinstance(t, ast.Subscript) and \
+                                U(t.value) == 'self.environ':
+                            site = y
+                if isinstance(y, ast.Call) and \
+                        isinstance(y.func, ast.Attribute) and \
+                        y.func.attr in ('pop', 'clear', 'popitem') and \
+                        U(y.func.value) == 'self.environ':
+                    site = y
+                if site is None:
+                    continue
+                n += 1
+                who = {g.name}
+                if g.name not in KNOWN_NAMES:
+                    who = callers.get(g.name, set()) or {g.name}
+                ctx.check(who <= {'_handle_eio_disconnect'},
+                          '%s.%s' % (cn, g.name), 'environ[transport] is '
+                          'removed only when the transport ends',
+                          key='environ-removed-early', reason='%s removes '
+                          'the request environment of a transport that is '
+                          'still open (reached from %s): the next CONNECT '
+                          'on it registers a session and then fails with '
+                          'KeyError before the connect handler runs or any '
+                          'answer is sent' % (g.name, sorted(who)),
+                          where=where(g, site))
+    if not n:
+        raise AnalysisError(S + ': no removal site of self.environ found')
+
+
 def r6_manager(ctx):
     m = ctx.model
     f = m.method('BaseManager', 'is_connected')
@@ -924,6 +976,10 @@ def run(ctx):
     ctx.rule('C04.R6', 'pending means not connected; duplicate connect '
              'returns None; pre_disconnect marks', floor=5)
     r6_manager(ctx)
+    ctx.rule('C04.R11', 'the request environment lives as long as the '
+             'transport', floor=2)
+    for fam in SA:
+        r11_environ_lifetime(ctx, fam)
     ctx.rule('C04.R10', 'can_disconnect answers through is_connected',
              floor=4)
     r10_can_disconnect(ctx)
